@@ -400,6 +400,45 @@ func runProperty(P *Prog, prop, tier string, seed int, verif, outDir string) *pr
 	replayDir := filepath.Join(outDir, "replays", "out", prop)
 	os.RemoveAll(replayDir)
 	var knownMatched []string
+	nReplay := 0
+	replayedFn := map[string]bool{}
+	// which failed obligation of a function is replayed: a postcondition (its query contains a complete path from
+	// the entry to a return) before safety conditions, asserts and loop steps (whose models start at a loop head)
+	replayPick := map[string]*Obligation{}
+	prio := func(o *Obligation) int {
+		hasModel := o.Status == "failed" || (strings.Contains(o.Output, "\nsat") && !strings.Contains(o.Output, "unsat"))
+		k := kindPrio(o)
+		if !hasModel {
+			k += 10
+		}
+		return k
+	}
+	_ = prio
+	kindPrioDummy := func(o *Obligation) int {
+		switch o.Kind {
+		case "post":
+			return 0
+		case "safety":
+			return 1
+		case "assert":
+			return 2
+		case "pre":
+			return 3
+		}
+		return 4
+	}
+	for _, o := range obls {
+		if o.Status == "discharged" {
+			continue
+		}
+		_ = kindPrioDummy
+		if b, ok := replayPick[o.Func]; !ok || prio(o) < prio(b) {
+			replayPick[o.Func] = o
+			if os.Getenv("GOVC_REPLAY_DEBUG") != "" {
+				fmt.Fprintf(os.Stderr, "replay-pick %s -> %s (%s %s)\n", o.Func, o.Name, o.Kind, o.Status)
+			}
+		}
+	}
 	for _, o := range obls {
 		res.total++
 		solverS += o.Time
@@ -440,6 +479,17 @@ func runProperty(P *Prog, prop, tier string, seed int, verif, outDir string) *pr
 		if in, ok := tryReplay(P, verif, prop, o); ok {
 			rep["failing_input"] = in
 			suffix = ""
+		} else if nReplay < 3 && !replayedFn[o.Func] && replayPick[o.Func] == o && (o.Status == "failed" || o.Status == "unknown" || o.Status == "timeout" || o.Status == "error") && os.Getenv("GOVC_NOREPLAY") == "" {
+			// one attempt per function, at most three per run
+			nReplay++
+			replayedFn[o.Func] = true
+			// model-driven replay against the real code (replaygen.go); only the first few violations of a run
+			rr := modelReplay(P, o, replayDir)
+			rep["replay"] = rr
+			if rr.Confirmed {
+				rep["failing_input"] = map[string]any{"call": rr.Call, "observed": rr.Observed, "panic": rr.Panic, "violated_clause": rr.Violated}
+				suffix = ""
+			}
 		}
 		jb, _ := json.MarshalIndent(rep, "", " ")
 		os.WriteFile(rp, jb, 0o644)
@@ -548,4 +598,18 @@ func runProperty(P *Prog, prop, tier string, seed int, verif, outDir string) *pr
 // tryReplay is extended per property by replay drivers (replay.go)
 func tryReplay(P *Prog, verif, prop string, o *Obligation) (any, bool) {
 	return runReplayDriver(verif, P.repo, prop, o)
+}
+
+func kindPrio(o *Obligation) int {
+	switch o.Kind {
+	case "post":
+		return 0
+	case "safety":
+		return 1
+	case "assert":
+		return 2
+	case "pre":
+		return 3
+	}
+	return 4
 }
